@@ -47,6 +47,8 @@ def make(cfg, sched=None, keep_log=False):
     s.world.env_handlers["arrive"] = lambda hexdata: s.kernel.arrive(s.fd, bytes.fromhex(hexdata))
     s.world.env_handlers["signal"] = lambda signum: s.kernel.sig.post(signum)
     seams.bind(s.world, s.kernel, enc, cfg.get("read_size"), cfg.get("locale_name"))
+    if cfg.get("platform"):
+        seams.set_platform(cfg["platform"])
     return s
 
 
